@@ -30,6 +30,12 @@ class T:
     def contains(self, kind) -> bool:
         return self.kind == kind or any(c.contains(kind) for c in self.children())
 
+    def borrow_in_list(self) -> bool:
+        """a borrow handle that lives in list memory (the C trampoline never sees it)"""
+        if self.kind == "list":
+            return self.elem.contains("borrow")
+        return any(c.borrow_in_list() for c in self.children())
+
     def heap_depth(self) -> int:
         """nesting depth of heap buffers (string = 1, list<string> = 2, ...)"""
         d = max([c.heap_depth() for c in self.children()] or [0])
@@ -242,6 +248,9 @@ class World:
     def heap_depth(self):
         return max([t.heap_depth() for t in self.types()] or [0])
 
+    def borrow_in_list(self):
+        return any(t.borrow_in_list() for _, t in self.params)
+
     def wit_text(self):
         defs, seen = [], set()
         for t in self.types():
@@ -362,13 +371,54 @@ def corpus(tier: str):
         ws.append(World("params-16-record", [("r", Record("r7", [("f%d" % i, P("u16")) for i in range(16)]))], P("u8"), "params"))
         ws.append(World("params-17-record", [("r", Record("r8", [("f%d" % i, P("u16")) for i in range(17)]))], P("u8"), "params"))
 
+    # -- every scalar-like leaf through the MEMORY path in both directions (not only the flat path): flags of every
+    #    representation (u8 / u16 / u32 / 2 x u32), a 257-case enum (u16 discriminant), bool, char, signed narrow ints, f32
+    def leaves():
+        return [("a", P("bool")), ("b", Flags("fl3", 3)), ("c", P("s8")), ("d", Flags("fl9", 9)), ("e", P("s16")),
+                ("f", Flags("fl12", 12)), ("g", P("char")), ("h", Flags("fl16", 16)), ("i", P("f32")), ("j", Flags("fl17", 17)),
+                ("k", Enum("e257", 257)), ("l", Flags("fl33", 33)), ("m", P("u8"))]
+    rm = Record("rm", leaves())                                   # 14 flat values: flat parameters, result through the return area
+    vm = Variant("vm", [("c%d" % i, t) for i, (_, t) in enumerate(leaves())])      # payload stored / loaded at the payload offset
+    ws.append(World("mem-record-leaves", [("x", rm)], rm, "memory"))
+    ws.append(World("mem-variant-leaves", [("x", vm)], vm, "memory"))
+    # list elements are never lifted one by one by the C backend (the list memory is handed over as it is): what matters is that the
+    # C struct layout IS the canonical element layout -- a smaller record with every alignment class is enough (and much cheaper)
+    rl = Record("rl", [("a", P("bool")), ("d", Flags("fl9", 9)), ("c", P("s8")), ("h", Flags("fl16", 16)), ("k", Enum("e257", 257)),
+                       ("j", Flags("fl17", 17)), ("e", P("s16")), ("g", P("char"))])
+    ws.append(World("mem-list-record-leaves", [("x", List(rl))], List(rl), "memory"))
+    # flags with 33..64 members: canonical layout = two u32 words (alignment 4); the C type is uint64_t (alignment 8)
+    r33 = Record("r33", [("a", P("u32")), ("l", Flags("fl33", 33))])
+    ws.append(World("mem-list-record-u32-fl33", [("x", List(r33))], List(r33), "memory"))
+    # > 16 flat parameters: the parameter record itself goes through memory (export: lifted from it; import: lowered into it)
+    ws.append(World("mem-params-indirect-record-leaves", [("x", rm), ("p", P("u64")), ("q", P("u64")), ("r", P("u64"))], rm, "memory"))
+    ws.append(World("mem-params-indirect-variant-leaves", [("x", vm)] + [("a%d" % i, P("u8")) for i in range(14)], vm, "memory"))
+    ws.append(World("mem-record-id-fl12-level", [], Record("rp", [("id", P("u32")), ("p", Flags("fl12", 12)), ("level", P("u8"))]), "memory"))
+    if th:
+        ws.append(World("mem-option-fl9", [("x", Option(Flags("fl9", 9)))], Option(Flags("fl9", 9)), "memory"))
+        ws.append(World("mem-tuple-fl16-s8-e257", [("x", Tuple([Flags("fl16", 16), P("s8"), Enum("e257", 257)]))],
+                        Tuple([Flags("fl16", 16), P("s8"), Enum("e257", 257)]), "memory"))
+        vl = Variant("vl", [("c0", Flags("fl9", 9)), ("c1", P("s8")), ("c2", Enum("e257", 257)), ("c3", Flags("fl17", 17)), ("c4", P("bool"))])
+        ws.append(World("mem-list-variant-leaves", [("x", List(vl))], List(vl), "memory"))
+        ws.append(World("mem-result-s16-fl12", [("x", Result(P("s16"), Flags("fl12", 12)))], Result(P("s16"), Flags("fl12", 12)), "memory"))
+
     # -- own / borrow handles of an imported resource
     ws.append(World("handle-own", [("x", Own("res"))], Own("res"), "handle", resources=["res"]))
     ws.append(World("handle-borrow", [("x", Borrow("res"))], P("u32"), "handle", resources=["res"]))
     ws.append(World("handle-borrow-multi-word", [("x", Borrow("multi-word"))], P("u32"), "handle", resources=["multi-word"]))
+    # borrows reachable through aggregates.  Under autodrop_borrows=yes the generator either REFUSES the world (borrows inside list
+    # memory cannot be recorded by the trampoline: "declared unsupported by the generator") or every lent handle is dropped exactly once
+    rb = Record("rb", [("id", P("u32")), ("h", Borrow("res"))])
+    ws.append(World("handle-record-borrow", [("x", rb)], P("u32"), "handle", resources=["res"]))
+    ws.append(World("handle-option-borrow", [("x", Option(Borrow("res")))], P("u8"), "handle", resources=["res"]))
+    ws.append(World("handle-tuple-borrow-u32", [("x", Tuple([Borrow("res"), P("u32")]))], P("u32"), "handle", resources=["res"]))
+    ws.append(World("handle-list-borrow", [("x", List(Borrow("res")))], P("u32"), "handle", resources=["res"]))
+    ws.append(World("handle-list-record-borrow", [("x", List(rb))], P("u32"), "handle", resources=["res"]))
     if th:
         ws.append(World("handle-list-own", [("x", List(Own("res")))], List(Own("res")), "handle", resources=["res"]))
-        ws.append(World("handle-option-borrow", [("x", Option(Borrow("res")))], P("u8"), "handle", resources=["res"]))
+        ws.append(World("handle-two-borrows", [("x", Borrow("res")), ("y", Borrow("res"))], P("u8"), "handle", resources=["res"]))
+        ws.append(World("handle-list-tuple-borrow", [("x", List(Tuple([P("u8"), Borrow("res")])))], P("u8"), "handle", resources=["res"]))
+        ws.append(World("handle-variant-borrow-u32", [("x", Variant("vb", [("c0", Borrow("res")), ("c1", P("u32"))]))], P("u8"), "handle",
+                        resources=["res"]))
     names = [w.type_class for w in ws]
     assert len(names) == len(set(names))
     return ws
